@@ -92,12 +92,15 @@ def replay(case, ctx):
             problems = []
             if pn['ref'] != naming.node(case['ref']):
                 problems.append(f'node_zero_label {pn["ref"]!r} != {naming.node(case["ref"])!r}')
-            if [b['id'] for b in pn['br']] != [ids[b['id']] for b in net_spec]:
-                problems.append('branch ids/order: ' + repr([b['id'] for b in pn['br']]) + ' expected ' + repr([ids[b['id']] for b in net_spec]))
-                sig = f'branches:{test["kind"]}' if ids[7] not in [b['id'] for b in pn['br']] or len(pn['br']) != len(net_spec) else 'branches:order'
+            # one branch per non-ground component, matched by identifier (the order of the branch list is not part of the property)
+            if sorted(b['id'] for b in pn['br']) != sorted(ids[b['id']] for b in net_spec):
+                problems.append('branch ids: ' + repr([b['id'] for b in pn['br']]) + ' expected ' + repr([ids[b['id']] for b in net_spec]))
+                sig = f'branches:{test["kind"]}'
             else:
                 sig = ''
-                for pb, sb in zip(pn['br'], net_spec):
+                by_id = {b['id']: b for b in pn['br']}
+                for sb in net_spec:
+                    pb = by_id[ids[sb['id']]]
                     if (pb['n1'], pb['n2']) != (naming.node(sb['n1']), naming.node(sb['n2'])):
                         problems.append(f'terminals of {pb["id"]}')
                         sig = sig or 'terminals'
